@@ -50,3 +50,9 @@ Proof.
     replace (Nat.leb (256 + S k) 128) with false by (symmetry; apply Nat.leb_gt; lia). rewrite andb_false_r. reflexivity.
 Qed.
 Print Assumptions gen_compute_union_selectors_eq.
+
+(** the two conversions of [UnionSelector] (a newtype over its byte) *)
+Theorem gen_union_selector_conversions n m :
+  Gen.union_selector_into_u8 n = Ok n /\ Gen.union_selector_eq_u8 n m = Ok (n =? m).
+Proof. split; reflexivity. Qed.
+Print Assumptions gen_union_selector_conversions.
